@@ -21,21 +21,22 @@ func vhStep(pre *hamt[int, int], l string) {
 	op := vhNewOp("op")
 	post := op.apply(pre)
 	vhAgrees(post, l, op)
-	if zz.Bound("c03b.probe", 0, 1) == 1 {
+	if zz.Bound("c03b.probe", 0, 1) == 1 && len(vhKeys) <= 4 {
+		// thorough tier, small shapes: a symbolic lookup in the post-state as well
 		vhLookup(post, l, op)
 	}
 }
 
 func VH_c03b_array_root() {
 	vhReset()
-	n := 1 + zz.Choice("n", zz.Bound("c03b.array", 3, 7))
+	n := 1 + zz.Choice("n", zz.Bound("c03b.array", 3, 5))
 	vhStep(vhArrayRoot(n, 0), "array root")
 }
 
 // a full array node: the next new key converts it into a bitmap node (most keys pinned, two symbolic)
 func VH_c03b_array_root_full() {
 	vhReset()
-	vhStep(vhArrayRoot(maxArrayMapSize, maxArrayMapSize-zz.Bound("c03b.fullsym", 1, 2)), "full array root")
+	vhStep(vhArrayRoot(maxArrayMapSize, maxArrayMapSize-zz.Bound("c03b.fullsym", 1, 1)), "full array root")
 }
 
 func VH_c03b_bitmap_root_values() {
